@@ -978,13 +978,21 @@ pub fn do_bad_call<T: Smp>(run: &mut Runner<T>, bc: &BadCall) -> (bool, Vec<(&'s
     let m = mask.as_deref();
     let drv = &mut run.drv;
     let via = bc.via_process;
+    let mut allocs = AllocReport::default();
     let r = crate::mon::guarded(|| {
         if via {
             drv.proc(&wi, m).map(|v| (0usize, v.first().map(|c| c.len()).unwrap_or(0)))
         } else {
-            drv.pib(&wi, &mut wo, m)
+            alloc::arm();
+            let r = drv.pib(&wi, &mut wo, m);
+            allocs = alloc::disarm();
+            r
         }
     });
+    if allocs.events != 0 {
+        // C09 covers failing calls too: the error path of process_into_buffer must not touch the heap
+        v.push(("alloc_on_error_path", format!("{:?}: {} allocator event(s) during the failing process_into_buffer call, first: {} of {} bytes", bc.bad, allocs.events, allocs.kind_name(), allocs.first_size)));
+    }
     match r {
         Err(p) => v.push(("panic_on_malformed", format!("{:?}{}: panicked: {}", bc.bad, if via { " via process()" } else { "" }, p))),
         Ok(Ok((i, o))) => v.push(("ok_on_malformed", format!("{:?}{}: returned Ok(({},{})), expected Err {}", bc.bad, if via { " via process()" } else { "" }, i, o, expect))),
